@@ -57,28 +57,45 @@ fn gen_op<S: Scheme>(tx: &Tx<S>, rng: &mut ChaCha20Rng) -> Op<S> {
             Op::Open { idx, z, values }
         }
         1 if !unb.is_empty() => {
-            let mut lc = LinearCombination::empty("lc");
-            let n = range(rng, 1, 3);
-            for _ in 0..n {
-                let i = unb[below(rng, unb.len())];
-                lc.push((FOf::<S>::rand(rng), LCTerm::PolyLabel(tx.polys[i].label().clone())));
+            // 1..2 combinations over unbounded polynomials (coefficients incl. 0 / constants), queried under 1..2
+            // point labels that may share one point value
+            let nlc = range(rng, 1, 2);
+            let mut lcs = Vec::new();
+            for j in 0..nlc {
+                let mut lc = LinearCombination::empty(format!("lc{}", j));
+                let n = range(rng, 1, 3);
+                for _ in 0..n {
+                    let i = unb[below(rng, unb.len())];
+                    let c = if rng.next_u32() % 5 == 0 { ark_ff::Zero::zero() } else { FOf::<S>::rand(rng) };
+                    lc.push((c, LCTerm::PolyLabel(tx.polys[i].label().clone())));
+                }
+                if rng.next_u32() % 2 == 0 {
+                    lc.push((FOf::<S>::rand(rng), LCTerm::One));
+                }
+                lcs.push(lc);
             }
-            if rng.next_u32() % 2 == 0 {
-                lc.push((FOf::<S>::rand(rng), LCTerm::One));
-            }
-            let z = S::gen_point(&tx.w.cfg, rng);
+            let z1 = S::gen_point(&tx.w.cfg, rng);
+            let z2 = if rng.next_u32() % 2 == 0 { z1.clone() } else { S::gen_point(&tx.w.cfg, rng) };
             let mut qs = QuerySet::new();
-            qs.insert(("lc".to_string(), ("zeta".to_string(), z.clone())));
-            let mut v = ark_ff::Zero::zero();
-            for (c, t) in lc.iter() {
-                match t {
-                    LCTerm::One => v += *c,
-                    LCTerm::PolyLabel(l) => v += *c * tx.polys[tx.idx_of(l)].evaluate(&z),
+            for (k, lc) in lcs.iter().enumerate() {
+                qs.insert((lc.label.clone(), ("zeta".to_string(), z1.clone())));
+                if k == 0 && rng.next_u32() % 2 == 0 {
+                    qs.insert((lc.label.clone(), ("alpha".to_string(), z2.clone())));
                 }
             }
             let mut evals = Evaluations::new();
-            evals.insert(("lc".to_string(), z), v);
-            Op::Lc { lcs: vec![lc], qs, evals }
+            for (l, (_, z)) in &qs {
+                let lc = lcs.iter().find(|x| &x.label == l).unwrap();
+                let mut v: FOf<S> = ark_ff::Zero::zero();
+                for (c, t) in lc.iter() {
+                    match t {
+                        LCTerm::One => v += *c,
+                        LCTerm::PolyLabel(pl) => v += *c * tx.polys[tx.idx_of(pl)].evaluate(z),
+                    }
+                }
+                evals.insert((l.clone(), z.clone()), v);
+            }
+            Op::Lc { lcs, qs, evals }
         }
         _ => Op::Batch { q: gen_queries::<S>(&tx.w.cfg, &tx.polys, range(rng, 1, 3), rng) },
     }
@@ -158,7 +175,20 @@ fn case<S: Scheme>(ctx: &mut Ctx, rng: &mut ChaCha20Rng) {
     ctx.held("lock-step-accept", desc.clone());
     ctx.held("lock-step-state", desc.clone());
     // ---- negative: a proof is not accepted under a different transcript state
-    let nonconst = |op: &Op<S>| op.polys(&tx).iter().any(|&i| !S::is_constant(tx.polys[i].polynomial()));
+    // the transcript binds a proof only through a non-trivial witness: for plain openings some polynomial must be
+    // non-constant, for combinations some COMBINED polynomial must be (0*p + c, or p - p, is constant)
+    let nonconst = |op: &Op<S>| match op {
+        Op::Lc { lcs, .. } => lcs.iter().any(|lc| {
+            let mut comb = <POf<S> as ark_ff::Zero>::zero();
+            for (c, t) in lc.iter() {
+                if let LCTerm::PolyLabel(l) = t {
+                    comb += (*c, tx.polys[tx.idx_of(l)].polynomial());
+                }
+            }
+            !S::is_constant(&comb) && !ark_ff::Zero::is_zero(&comb)
+        }),
+        _ => op.polys(&tx).iter().any(|&i| !S::is_constant(tx.polys[i].polynomial())),
+    };
     // (a) extra absorb before operation i on the verifier side
     {
         let i = below(rng, n);
